@@ -196,18 +196,49 @@ def run(ck):
                     ck.fail_case({**sig0, "clause": "inverse-array"}, {"params": par, "got": arr.tolist(), "expected": [0.0, ps[2], ps[3]]})
 
     # ------------------------------------------------------------------ 3. model isotherm wraps the model with unit conversion
-    for name in ("Langmuir", "Toth", "BET"):
+    import c01
+    import c02
+    import c03
+    pg.Adsorbate("pgv_stub", store=True, molar_mass=28.5, saturation_pressure=123456.0, liquid_density=0.81, gas_density=0.0047,
+                 liquid_molar_density=0.81 / 28.5, gas_molar_density=0.0047 / 28.5)
+    pg.Material("pgv_mat", store=True, density=2.3, molar_mass=321.0)
+    w = c02.World(pg, "stub", "pgv_stub", "pgv_mat", 77.0)
+    PST = [("absolute", u) for u in c01.PA] + [("relative", None), ("relative%", None)]
+    LST = [(b, u) for b in ("molar", "mass", "volume_gas", "volume_liquid") for u in c01.LTABLE[b]] + [("fraction", None), ("percent", None)]
+    MST = [(b, u) for b in ("mass", "volume", "molar") for u in c01.MTABLE[b]]
+    for it in range(400 if thorough else 80):
+        name = rng.choice(["Langmuir", "Henry", "Toth", "DSLangmuir", "Freundlich"])
         par = sample_params(name, rng)
-        iso = pg.ModelIsotherm(material="pgv_m", adsorbate="N2", temperature=77.355, model=make(pg, name, par),
-                               pressure_mode="absolute", pressure_unit="bar", loading_basis="molar", loading_unit="mmol",
-                               material_basis="mass", material_unit="g")
-        pole = 1 / par["N"] if name == "BET" else 1e9
-        p = min(0.37, 0.5 * pole)
-        bare = float(iso.model.loading(np.float64(p)))
-        got = float(iso.loading_at(p * 100, pressure_unit="kPa", loading_unit="mol", material_unit="kg"))
-        ck.count(("wrap", name), bucket="model-isotherm")
-        if relerr(got, bare) > 1e-10:      # mmol/g == mol/kg
-            ck.fail_case({"model": name, "clause": "model-isotherm-wraps"}, {"params": par, "bare": bare, "through_isotherm": got})
+        st_p, st_l, st_m = rng.choice(PST), rng.choice(LST[:-2]), rng.choice(MST)       # stored: physical loading (fraction: finding S5)
+        rq_p, rq_l, rq_m = rng.choice(PST), rng.choice(LST), rng.choice(MST)
+        lab = [st_p[0], st_p[1], st_l[0], st_l[1], st_m[0], st_m[1], "K"]
+        miso = pg.ModelIsotherm(model=make(pg, name, par), material="pgv_mat", adsorbate="pgv_stub", temperature=77.0,
+                                pressure_mode=lab[0], pressure_unit=lab[1], loading_basis=lab[2], loading_unit=lab[3],
+                                material_basis=lab[4], material_unit=lab[5], temperature_unit="K")
+        pn = 0.37
+        bare = float(miso.model.loading(np.float64(pn)))
+        qf = float(c03.expected_pressure(w.props, lab, rq_p, pn))
+        sig = {"clause": "model-isotherm-wraps", "model": name, "stored": [str(x) for x in lab[:6]], "requested": [str(x) for x in rq_p + rq_l + rq_m]}
+        ck.count(("wrap", name, tuple(lab[:6]), rq_p, rq_l, rq_m), bucket="model-isotherm")
+        try:
+            got = float(miso.loading_at(qf, pressure_mode=rq_p[0], pressure_unit=rq_p[1], loading_basis=rq_l[0], loading_unit=rq_l[1],
+                                        material_basis=rq_m[0], material_unit=rq_m[1]))
+            exp = float(c03.expected_loading(w.props, lab, rq_l, rq_m, bare))
+            okk = relerr(got, exp) <= 1e-9
+        except Exception as e:  # noqa
+            got, exp, okk = repr(e), None, False
+        if not okk:
+            ck.fail_case(sig, {"params": par, "bare": bare, "through_isotherm": got, "expected": exp})
+        if rq_l[1] is not None and name != "DSLangmuir":
+            lf = float(c03.expected_loading(w.props, lab, rq_l, rq_m, bare))
+            try:
+                back = float(miso.pressure_at(lf, loading_basis=rq_l[0], loading_unit=rq_l[1], material_basis=rq_m[0], material_unit=rq_m[1],
+                                              pressure_mode=rq_p[0], pressure_unit=rq_p[1]))
+                okk = relerr(back, qf) <= 1e-7
+            except Exception as e:  # noqa
+                back, okk = repr(e), False
+            if not okk:
+                ck.fail_case({**sig, "fn": "pressure_at"}, {"params": par, "loading": lf, "got": back, "expected": qf})
     ck.cov["worst_relative_errors"] = {k: float(f"{v:.3g}") for k, v in sorted(worst.items())}
     ck.cov["rule"] = ("translator validation: every closed-form generated Float function vs its Python original on seeded parameter "
                       "vectors in bounds; property oracle: 16 models x seeded log-uniform parameter vectors x pressure grids in the validity "
